@@ -1133,6 +1133,10 @@ def run(ctx, col: Collector):
                         fs.add(x.attr)
                 fs &= {'schema1', 'table1', 'col1', 'schema2', 'table2', 'col2'}
                 wantf = {f'schema{side}', f'table{side}', f'col{side}'}
+                if not fs:
+                    col.unk('C01-sides', f'ReferenceBlueprint.build:{kw.arg}', f'cannot trace what ReferenceBlueprint.build computes {kw.arg} from (`{norm(kw.value)[:60]}`)',
+                            node=kw.value, file=rb.file)
+                    continue
                 col.check(fs == wantf, 'C01-sides', f'ReferenceBlueprint.build:{kw.arg}', f'{kw.arg} derives from {sorted(wantf)}',
                           f'ReferenceBlueprint.build computes {kw.arg} from {sorted(fs)} (expected exactly {sorted(wantf)}): the endpoint is resolved with '
                           f'the wrong schema/table/column', node=kw.value, file=rb.file)
